@@ -85,6 +85,17 @@ def _parse_trace(out):
 
 def run(module, cfg, files=None, workers=16, timeout=900, env=None, args=(), keep=None, coverage=False,
         java_opts=None, heap=None):
+    """see _run_once; a run that ends in an ERROR that is neither a property violation nor a clean pass is retried once
+    (JVM start-up / memory hiccups on a loaded machine must not turn into verdicts)."""
+    res = _run_once(module, cfg, files, workers, timeout, env, args, keep, coverage, java_opts, heap)
+    if res.error and not res.violated and not res.ok and "-simulate" not in " ".join(args):
+        time.sleep(2)
+        res = _run_once(module, cfg, files, workers, timeout, env, args, keep, coverage, java_opts, heap)
+    return res
+
+
+def _run_once(module, cfg, files=None, workers=16, timeout=900, env=None, args=(), keep=None, coverage=False,
+              java_opts=None, heap=None):
     """Run TLC on `module` (a module in spec/ or provided in files) with cfg text. Returns TLCResult.
 
     files: extra {filename: text} written beside the spec (MC modules, data).
